@@ -252,6 +252,13 @@ def run(ck: Checker):
             elif calls.index('close') > calls.index('unlink'):
                 pass
     ck.ob('C13-5', init, (init.node.lineno, 'MemoryBlock finaliser'), not probs, '; '.join(probs) if probs else 'a finaliser over the created SharedMemory closes and unlinks it when the hosted block is destroyed')
+    # the release callback closes before it unlinks, and close() refuses (BufferError) while a view *derived* from the
+    # block's buffer is alive: `buf` hands out the SharedMemory's own view, never a slice / memoryview made per access
+    bufm = next((m for m in mb.methods() if m.name == 'buf'), None)
+    if bufm is not None:
+        rets = [r for r in walk_shallow_func(bufm.node) if isinstance(r, ast.Return) and r.value is not None]
+        bad_ = [r for r in rets if not (isinstance(r.value, ast.Attribute) and r.value.attr == 'buf')]
+        ck.ob('C13-5', bufm, rets[0] if rets else bufm.node, bool(rets) and not bad_, 'buf returns the buffer of the SharedMemory itself' if rets and not bad_ else f'`{norm_text(bad_[0].value) if bad_ else "?"}` makes a new view of the shared buffer on every access: while one of them is alive in the server process, close() in the release callback raises BufferError and unlink() is never reached — the block outlives its last reference')
 
 
 def check_create_bookkeeping(ck: Checker, rid: str):
